@@ -26,7 +26,7 @@ RULE = ("random Clifford circuits (plus exact rational rotations, incl. near-det
         "the model's table), a classical bit overwritten by a second qubit followed by a reset and re-use of either qubit, several (circuit, parameter values) "
         "pairs in one ExactSampler.run -- the same parametrised circuit object with different values, copies, other circuits in between (independent simulator only); "
         "every parametrised standard gate (plain and through expressions p/2, -p, 2p+c; dynamic circuits) bound by the sampler with values inside and "
-        "outside [0, 2pi): negative, beyond one / two / many turns, exact multiples of 2pi (independent simulator only); classical bits laid out other than in one register (several registers, bits outside any register, aliasing registers) with a bit set to 1 before later 0-outcomes / resets / overwrites; one circuit holding different unitary gates of equal name, width and parameters (user-defined blocks and gate classes, open vs closed controls, PauliEvolutionGate of different operators; reference written out in standard gates); qubit re-use: reset - multi-qubit gate with the qubit as first / middle / last argument (every multi-qubit standard gate, every position) - reset again - read-out, and an ancilla re-used over several rounds")
+        "outside [0, 2pi): negative, beyond one / two / many turns, exact multiples of 2pi (independent simulator only); classical bits laid out other than in one register (several registers, bits outside any register, aliasing registers) with a bit set to 1 before later 0-outcomes / resets / overwrites; one circuit holding different unitary gates of equal name, width and parameters (user-defined blocks and gate classes, open vs closed controls, PauliEvolutionGate of different operators; reference written out in standard gates); qubit re-use: reset - multi-qubit gate with the qubit as first / middle / last argument (every multi-qubit standard gate, every position) - reset again - read-out, and an ancilla re-used over several rounds; measurement / reset of a middle qubit (3-5 qubits, every position) while qubits below and above it are entangled (Bell pairs across it, GHZ), outer qubits not all measured afterwards")
 ASSUMPTIONS = ["Qiskit Statevector.evolve / probabilities and IEEE rounding are outside the model; the implementation's 1e-16 pruning tolerance is modelled as 0",
                "the concrete Clifford backend of the model (exact Gaussian-rational amplitudes) is validated against the implementation, not proved Lawful / ExSem (the refinement theorem holds for every backend whose states have expectation vectors transformed by transfer matrices)",
                "through ExactSampler: QuasiDistribution keeps integer keys"]
@@ -264,6 +264,61 @@ def _reuse_cases():
         yield ("simulate", {"nq": nq, "ncl": ncl, "instrs": instrs, "via": "sampler" if idx % 2 else "func", "always_oracle": True})
 
 
+def _middle_qubit_cases():
+    """seed-independent: a measurement / reset of a MIDDLE qubit (neither the lowest nor the highest position of the circuit, 3-5 qubits)
+    at a moment when qubits BELOW it are entangled with qubits ABOVE it -- a Bell pair (lo, hi) around every middle position, two Bell
+    pairs crossing it, a GHZ state over all outer qubits, the middle qubit itself rotated (exact rational angle: in the model) or entangled
+    with the pair -- and the outer qubits are NOT all measured afterwards (none, or one of them), so that a wrong marginal probability of
+    the middle qubit is not compensated by the branch state.  The marginal of a qubit is a sum over ALL other qubits, lower and higher."""
+    g = lambda nm, *qs: {"name": nm, "qubits": list(qs)}                                # noqa: E731
+    m = lambda q, c: {"name": "measure", "qubits": [q], "clbits": [c]}                  # noqa: E731
+    rot = lambda q, t: {"name": "ry_t", "qubits": [q], "t": t}                          # noqa: E731
+    n = 0
+    for nq in (3, 4, 5):
+        for lo in range(nq):
+            for mid in range(lo + 1, nq):
+                for hi in range(mid + 1, nq):
+                    for kind in ("measure", "reset"):
+                        n += 1
+                        prep = [g("h", lo), g("cx", lo, hi), rot(mid, ["1/3", "2/5", "-1/2"][n % 3]), g("s", lo)]
+                        if n % 4 == 0:
+                            prep.append(g("cx", lo, mid))      # the middle qubit entangled with the pair
+                        if kind == "measure":
+                            tail = [m(mid, 0)]
+                        else:
+                            tail = [g("reset", mid), g("h", mid), m(mid, 0)]
+                        if n % 5 == 0:
+                            tail += [g("h", hi), m(hi, 1)]       # one of the outer qubits read out afterwards, the other never
+                        elif n % 5 == 1:
+                            tail += [g("barrier", *range(nq))]
+                        yield ("simulate", {"nq": nq, "ncl": 2, "instrs": prep + tail, "via": "sampler" if n % 3 == 0 else "func",
+                                            "always_oracle": True})
+    progs = [
+        # two Bell pairs crossing the middle qubit
+        (5, 1, [g("h", 0), g("cx", 0, 3), g("h", 1), g("cx", 1, 4), rot(2, "1/3"), m(2, 0)]),
+        (5, 2, [g("h", 0), g("cx", 0, 4), g("h", 1), g("cx", 1, 3), g("sx", 2), g("reset", 2), g("h", 2), m(2, 0), m(0, 1)]),
+        # GHZ over the outer qubits, two middle qubits measured one after the other
+        (5, 2, [g("h", 0), g("cx", 0, 3), g("cx", 0, 4), g("h", 1), rot(2, "2/5"), m(1, 0), m(2, 1)]),
+        (4, 2, [g("h", 3), g("cx", 3, 0), g("h", 1), g("h", 2), g("cz", 1, 2), m(2, 0), g("reset", 1), m(1, 1)]),
+        # no classical bit at all: the single outcome must have probability one
+        (3, 0, [g("h", 0), g("cx", 0, 2), g("h", 1), g("reset", 1)]),
+        (4, 0, [g("h", 1), g("cx", 1, 3), g("h", 2), g("cy", 2, 0), g("reset", 2), g("barrier", 0, 1, 2, 3)]),
+        # the same bit written twice by a middle qubit
+        (3, 1, [g("h", 0), g("cx", 0, 2), g("h", 1), m(1, 0), g("h", 1), m(1, 0)]),
+        # arbitrary angles / T gate (outside the model's gate table: independent simulator only)
+        (3, 1, [g("h", 0), g("cx", 0, 2), {"name": "ry", "qubits": [1], "params": [0.7]}, g("t", 0), m(1, 0)]),
+        (4, 2, [g("h", 0), g("cx", 0, 3), {"name": "rx", "qubits": [2], "params": [1.9]}, {"name": "rz", "qubits": [3], "params": [0.4]},
+                g("reset", 2), g("h", 2), m(2, 1), m(1, 0)]),
+    ]
+    for idx, (nq, ncl, instrs) in enumerate(progs):
+        in_model = all(i["name"] in MODEL_GATES or i["name"] in ("measure", "reset", "barrier", "ry_t", "rx_t") for i in instrs)
+        p = {"nq": nq, "ncl": ncl, "instrs": instrs, "via": "sampler" if (idx % 2 and ncl and any(i["name"] == "measure" for i in instrs)) else "func",
+             "always_oracle": True}
+        if not in_model:
+            p["oracle_only"] = True
+        yield ("simulate", p)
+
+
 def _sweep_cases():
     """seed-independent: ONE ExactSampler.run() call that holds several (circuit, parameter values) pairs -- the V1 parameter-sweep
     idiom: the same parametrised circuit object several times with different values, mixed with an unparametrised circuit, with a
@@ -388,6 +443,7 @@ def _oracle_sweep(payload):
 
 
 def cases(rng, tier):
+    yield from _middle_qubit_cases()
     yield from _reuse_cases()
     yield from _deterministic_cases()
     yield from _clbit_layout_cases()
